@@ -81,22 +81,39 @@ def tokens(frag):
 
 
 def render(frag, rng=None, plain=False):
+    return render_gaps(frag, rng, plain)[0]
+
+
+def render_gaps(frag, rng=None, plain=False):
+    """(text, lead, gaps): gaps[k] is the filler written after token k (the last one is the trailing filler) - the
+    `Layout` of PGA/Spec/RingLayout.lean"""
     toks = tokens(frag)
-    out = []
-    for k, t in enumerate(toks):
-        if k:
-            glue_ok = t in '{},' or toks[k - 1] in '{},!'
-            if plain or rng is None:
-                out.append(' ')
-            elif glue_ok and rng.random() < 0.4:
-                pass
-            else:
-                out.append(''.join(rng.choice([' ', ' ', ' ', '\n', '\t', '  ', '\n    ']) for _ in range(rng.choice([1, 1, 1, 2]))))
-        out.append(t)
-    text = ''.join(out)
+    gaps = []
+    for k in range(1, len(toks)):
+        t = toks[k]
+        glue_ok = t in '{},' or toks[k - 1] in '{},!'
+        if plain or rng is None:
+            gaps.append(' ')
+        elif glue_ok and rng.random() < 0.4:
+            gaps.append('')
+        else:
+            gaps.append(''.join(rng.choice([' ', ' ', ' ', '\n', '\t', '  ', '\n    ']) for _ in range(rng.choice([1, 1, 1, 2]))))
+    lead, trail = '', ''
     if rng is not None and not plain:
-        text = rng.choice(['', ' ', '\n', '\n  \t']) + text + rng.choice(['', ' ', '\n'])
-    return text
+        lead, trail = rng.choice(['', ' ', '\n', '\n  \t']), rng.choice(['', ' ', '\n'])
+    gaps.append(trail)
+    text = lead + ''.join(t + g for t, g in zip(toks, gaps))
+    return text, lead, gaps
+
+
+def opaque(g):
+    """PGA.Ring.Opaque for the shipped filler list: two or more filler characters, or a newline / tab among them"""
+    return len(g) >= 2 or '\n' in g or '\t' in g
+
+
+def gaps_alike(g1, g2):
+    """PGA.C08.GapsAlike: the pair of layouts falls under the proved theorem C08_layout_irrelevant_partial"""
+    return len(g1) == len(g2) and all(a == b or (opaque(a) and opaque(b)) for a, b in zip(g1[:-1], g2[:-1]))
 
 
 def labels_of(frag):
@@ -345,3 +362,13 @@ def small_fragments(thorough=False):
             out.append(frag([atom('C', prefix=p), atom('C', label='c2', bond=(bw, 'c1'))]))
             out.append(frag([atom('C'), atom('C', prefix=p, label='c2', bond=(bw, 'c1'))]))
     return out
+
+
+def alike_variant(frag, lead, gaps, rng):
+    """another layout of the same tokens that `gaps_alike` relates to (lead, gaps): every opaque gap replaced by a random opaque
+    gap, single blanks and closed gaps kept, lead and trail redrawn - the class the proved layout theorem covers"""
+    toks = tokens(frag)
+    pool = ['\n', '\t', '  ', '\n    ', ' \n', '\t\t', '\n\n  ', ' \t ']
+    g2 = [rng.choice(pool) if opaque(g) else g for g in gaps[:-1]] + [rng.choice(['', ' ', '\n', '  \n\t'])]
+    lead2 = rng.choice(['', ' ', '\n', '\t  ', '\n\n'])
+    return lead2 + ''.join(t + g for t, g in zip(toks, g2)), lead2, g2
